@@ -230,16 +230,44 @@ def check(cx):
                 cell = r.parts[1]
                 clos = it.read(st, cell.root, cell.path)
                 rep.analysed_fns.add(clos.path)
-                init_knot = clos.captures[0] if clos.captures else None
+                # the running knot: the one Knot carried by the closure, directly or inside a small state struct
+                def find_knot(v, path=()):
+                    if isinstance(v, Struct) and v.path == 'poly::Knot':
+                        return [path]
+                    out_ = []
+                    if isinstance(v, (Struct, Tup)):
+                        for j_, x_ in enumerate(v.fields):
+                            out_ += find_knot(x_, path + (j_,))
+                    return out_
+
+                def get_at(v, path):
+                    for j_ in path:
+                        v = v.fields[j_]
+                    return v
+
+                def set_at(v, path, new):
+                    if not path:
+                        return new
+                    fs = list(v.fields)
+                    fs[path[0]] = set_at(fs[path[0]], path[1:], new)
+                    return Struct(v.path, tuple(fs), v.tyargs) if isinstance(v, Struct) else Tup(tuple(fs))
+                kpaths = [(j_, p_) for j_, c_ in enumerate(clos.captures) for p_ in find_knot(c_)]
+                if len(kpaths) != 1:
+                    rep.ob('iter', inst, False, 'the closure does not carry exactly one running knot', fn=inst, file=file, line=line)
+                    return
+                kcap, kpath = kpaths[0]
+                init_knot = get_at(clos.captures[kcap], kpath)
                 # havoc the running knot
-                it.write(st, cell.root, cell.path, Closure(clos.path, (Struct('poly::Knot', (sx, sy)),) + tuple(clos.captures[1:])))
+                caps_ = list(clos.captures)
+                caps_[kcap] = set_at(caps_[kcap], kpath, Struct('poly::Knot', (sx, sy)))
+                it.write(st, cell.root, cell.path, Closure(clos.path, tuple(caps_), clos.subst))
                 cf = it.facts.fn(clos.path)
                 arg_ty = cf['body']['locals'][2]['ty']
                 arg = Ref(it.alloc(st, segv, 'seg'), ()) if arg_ty['k'] == 'ref' else segv
                 ctx = CallCtx(it, None, st, None, [], None, None)
                 out = it.call_closure(ctx, cell, [arg])
                 after = it.read(ctx.state, cell.root, cell.path)
-                k2 = after.captures[0]
+                k2 = get_at(after.captures[kcap], kpath)
             else:
                 state_cell, cell = r.parts[1], r.parts[2]
                 clos = it.read(st, cell.root, cell.path)
